@@ -32,13 +32,13 @@ def parse_row(ints):
     return tracks, merged
 
 
-def mk(dt, ident):
+def mk0(dt, ident):
     """A distinct message per id, of varying type (so that a sort that looks at
     anything but the time is noticed)."""
     import mido
     if ident == 0:
         return mido.MetaMessage('end_of_track', time=dt)
-    k, n = ident % 7, ident // 7
+    k, n = ident % 8, ident // 8
     if k == 0:
         return mido.Message('note_on', channel=(n // 128) % 16, note=n % 128, time=dt)
     if k == 1:
@@ -51,35 +51,53 @@ def mk(dt, ident):
         return mido.Message('sysex', data=[n % 128, (n // 128) % 128], time=dt)
     if k == 5:
         return mido.Message('aftertouch', channel=(n // 128) % 16, value=n % 128, time=dt)
+    if k == 7:
+        return mido.UnknownMetaMessage(0x60 + n % 4, data=[(n // 4) % 128, (n // 512) % 128], time=dt)
     return mido.MetaMessage('set_tempo', tempo=n, time=dt)
 
 
-def ident_of(m):
+def ident_of0(m):
     t = m.type
     try:
         if t == 'end_of_track':
             return 0
         if t == 'note_on':
-            return 7 * (m.note + 128 * m.channel)
+            return 8 * (m.note + 128 * m.channel)
         if t == 'control_change':
-            return 7 * (m.control + 128 * m.channel) + 1
+            return 8 * (m.control + 128 * m.channel) + 1
         if t == 'pitchwheel':
-            return 7 * m.pitch + 2
+            return 8 * m.pitch + 2
         if t == 'text':
-            return 7 * int(m.text) + 3
+            return 8 * int(m.text) + 3
         if t == 'sysex':
-            return 7 * (m.data[0] + 128 * m.data[1]) + 4
+            return 8 * (m.data[0] + 128 * m.data[1]) + 4
         if t == 'aftertouch':
-            return 7 * (m.value + 128 * m.channel) + 5
+            return 8 * (m.value + 128 * m.channel) + 5
         if t == 'set_tempo':
-            return 7 * m.tempo + 6
+            return 8 * m.tempo + 6
+        if t == 'unknown_meta':
+            return 8 * ((m.type_byte - 0x60) + 4 * m.data[0] + 512 * m.data[1]) + 7
     except Exception:
         pass
     return -1
 
 
+mk, ident_of = mk0, ident_of0
+
+
 def check_merge(tracks, merged):
     import mido
+    # rotate the message kinds with the row, so that every kind (unknown meta
+    # messages included) occurs in the enumerated inputs
+    off = 8 * ((len(tracks) + sum(dt for t in tracks for dt, _ in t)) % 8)
+    off += (sum(len(t) for t in tracks) * 3) % 8
+
+    def mk(dt, i, _mk=mk0):
+        return _mk(dt, i + off if i else 0)
+
+    def ident_of(m, _io=ident_of0):
+        r = _io(m)
+        return r - off if r > 0 else r
     real = [mido.MidiTrack(mk(dt, i) for dt, i in t) for t in tracks]
     snapshot = [[(id(m), m.copy()) for m in t] for t in real]
     outs = []
@@ -157,10 +175,14 @@ def random_tracks(rng):
     nt = rng.choice([0, 1, 2, 3, 4, 6])
     tracks = []
     ident = 1
+    big = 2 if rng.random() < 0.3 else 0         # absolute times beyond 2**28 ticks
     for t in range(nt):
         evs = []
         for _ in range(rng.choice([0, 1, 3, 10, 40])):
             dt = rng.choice([0, 0, 1, 2, 480, rng.randrange(1000), rng.randrange(10 ** 6)])
+            if big and rng.random() < 0.2:
+                big -= 1
+                dt = rng.choice([0x0fffffff, 200000000, 0x0ffffff0])
             if rng.random() < 0.12:
                 evs.append((dt, 0))
             else:
